@@ -284,7 +284,7 @@ func (sf *stateFlow) containerSet(v ssa.Value) sset {
 		if elems, ok := varargElems(x); ok {
 			res = 0
 			for _, e := range elems {
-				res |= sf.elemSet(e, nil)
+				res |= sf.elemSet(e, x)
 			}
 		} else {
 			res = sf.containerSet(x.X)
@@ -305,6 +305,12 @@ func (sf *stateFlow) containerSet(v ssa.Value) sset {
 				if st, ok := ref.(*ssa.Store); ok && st.Addr == a {
 					res |= sf.containerSet(st.Val)
 				}
+			}
+		}
+		// a package-level table: assigned exactly once (in the package initialiser) and never written through
+		if g, ok := x.X.(*ssa.Global); ok && x.Op == token.MUL {
+			if st := sf.p.soleStoreTo(g); st != nil {
+				res = sf.containerSet(st.Val)
 			}
 		}
 	case *ssa.MakeSlice:
@@ -455,6 +461,19 @@ func (sf *stateFlow) membershipDominates(v ssa.Value, at ssa.Instruction) (sset,
 		for si := range b.Succs {
 			a, ok := edgeAtom(Edge{b, si})
 			if !ok || !isBoolTrue(a.Y) || a.Op != token.EQL {
+				continue
+			}
+			// slices.Contains(T, v) == true
+			if call, isCall := a.X.(*ssa.Call); isCall && len(call.Call.Args) == 2 {
+				g := call.Call.StaticCallee()
+				if g != nil && g.Origin() != nil {
+					g = g.Origin()
+				}
+				if g != nil && g.Pkg != nil && g.Pkg.Pkg.Path() == "slices" && g.Name() == "Contains" && sameFieldOfParam(call.Call.Args[1], v) {
+					if okp, _ := sf.p.MustPass(fn, at, []Edge{{b, si}}); okp {
+						return sf.containerSet(call.Call.Args[0]), true
+					}
+				}
 				continue
 			}
 			ex, ok := a.X.(*ssa.Extract)
@@ -622,6 +641,28 @@ func (sf *stateFlow) refine(e Edge, out sfFact) sfFact {
 			o := out.clone()
 			sf.set(o, a.X, 0)
 			return o
+		}
+		// membership: slices.Contains(T, p.State) == true
+		if isBoolTrue(a.Y) && a.Op == token.EQL {
+			if call, ok := a.X.(*ssa.Call); ok && len(call.Call.Args) == 2 {
+				g := call.Call.StaticCallee()
+				if g != nil && g.Origin() != nil {
+					g = g.Origin() // an instance of the generic function
+				}
+				if g != nil && g.Pkg != nil && g.Pkg.Pkg.Path() == "slices" && g.Name() == "Contains" {
+					if p, ok := sf.stateLoad(call.Call.Args[1]); ok {
+						if set := sf.containerSet(call.Call.Args[0]); set != ssTop {
+							o := out.clone()
+							cur, has := o[p]
+							if !has {
+								cur = ssTop
+							}
+							sf.set(o, p, cur&set)
+							return o
+						}
+					}
+				}
+			}
 		}
 		// membership: ok(M[p.State]) == true
 		if isBoolTrue(a.Y) && a.Op == token.EQL {
@@ -1021,4 +1062,51 @@ func (sf *stateFlow) identityField() string {
 	}
 	sf.idField = &name
 	return name
+}
+
+// soleStoreTo: the only store to package-level variable g in the module, provided it sits in a package initialiser
+// and no element of the stored slice/map is written anywhere (nil otherwise).
+func (p *Program) soleStoreTo(g *ssa.Global) *ssa.Store {
+	if p.soleStores == nil {
+		p.soleStores = map[*ssa.Global]*ssa.Store{}
+		count := map[*ssa.Global]int{}
+		dirty := map[*ssa.Global]bool{}
+		for _, fn := range p.SrcFuncs {
+			for _, b := range fn.Blocks {
+				for _, ins := range b.Instrs {
+					switch x := ins.(type) {
+					case *ssa.Store:
+						if gg, ok := x.Addr.(*ssa.Global); ok {
+							count[gg]++
+							if fn.Name() == "init" {
+								p.soleStores[gg] = x
+							} else {
+								dirty[gg] = true
+							}
+						}
+						// element store through a load of the global: g[i] = …
+						if ia, ok := x.Addr.(*ssa.IndexAddr); ok {
+							if u, ok := ia.X.(*ssa.UnOp); ok {
+								if gg, ok := u.X.(*ssa.Global); ok && fn.Name() != "init" {
+									dirty[gg] = true
+								}
+							}
+						}
+					case *ssa.MapUpdate:
+						if u, ok := x.Map.(*ssa.UnOp); ok {
+							if gg, ok := u.X.(*ssa.Global); ok {
+								dirty[gg] = true
+							}
+						}
+					}
+				}
+			}
+		}
+		for gg := range p.soleStores {
+			if count[gg] != 1 || dirty[gg] {
+				delete(p.soleStores, gg)
+			}
+		}
+	}
+	return p.soleStores[g]
 }
